@@ -269,3 +269,140 @@ pub fn ensure_dir(path: &str) {
         std::fs::create_dir_all(d).ok();
     }
 }
+
+// ------------------------------------------------------------------------ length bookkeeping
+use crate::pairs::PairT;
+use crate::types::{Acc, MomT};
+
+trait LenT: Clone {
+    const NAME: &'static str;
+    fn fresh(alt: bool) -> Self;
+    fn add_random(&mut self, rng: &mut Xoshiro256PlusPlus);
+    fn merge_from(&mut self, o: &Self);
+    fn len_empty(&self) -> (f64, bool);
+}
+
+struct M<T>(T);
+impl<T: MomT> Clone for M<T> {
+    fn clone(&self) -> Self {
+        M(self.0.clone())
+    }
+}
+impl<T: MomT> LenT for M<T> {
+    const NAME: &'static str = T::NAME;
+    fn fresh(alt: bool) -> Self {
+        M(if alt { T::default_() } else { T::new() })
+    }
+    fn add_random(&mut self, rng: &mut Xoshiro256PlusPlus) {
+        self.0.add(rng.random::<f64>() * 100.0 - 30.0)
+    }
+    fn merge_from(&mut self, o: &Self) {
+        self.0.merge(&o.0)
+    }
+    fn len_empty(&self) -> (f64, bool) {
+        let mut v = Vec::new();
+        self.0.observe(&mut v);
+        let get = |a: Acc| v.iter().find(|x| x.0 == a).and_then(|x| x.1).unwrap_or(f64::NAN);
+        (get(Acc::Len), get(Acc::IsEmpty) == 1.0)
+    }
+}
+
+struct P<T>(T);
+impl<T: PairT> Clone for P<T> {
+    fn clone(&self) -> Self {
+        P(self.0.clone())
+    }
+}
+impl<T: PairT> LenT for P<T> {
+    const NAME: &'static str = T::NAME;
+    fn fresh(alt: bool) -> Self {
+        P(if alt { T::default_() } else { T::new() })
+    }
+    fn add_random(&mut self, rng: &mut Xoshiro256PlusPlus) {
+        let w = [0.0, 1.0, 0.25, 7.0][rng.random_range(0..4)];
+        self.0.add(rng.random::<f64>() * 10.0, w)
+    }
+    fn merge_from(&mut self, o: &Self) {
+        self.0.merge(&o.0)
+    }
+    fn len_empty(&self) -> (f64, bool) {
+        let mut v = Vec::new();
+        self.0.observe(&mut v);
+        let get = |a: &str| v.iter().find(|x| x.0 == a).and_then(|x| x.1).unwrap_or(f64::NAN);
+        (get("len"), get("is_empty") == 1.0)
+    }
+}
+
+fn record_len_typed<T: LenT>(out: &mut impl Write, rng: &mut Xoshiro256PlusPlus, n: usize, rep: &mut Report) {
+    writeln!(out, "{}", json!({"op": "restart", "type": T::NAME})).unwrap();
+    let k = 5usize;
+    let mut objs: Vec<Option<T>> = (0..k).map(|_| None).collect();
+    rep.behaviours += 1;
+    rep.nontrivial.insert(hash_str(&format!("len{}{}", T::NAME, n)));
+    let mut events = 0;
+    while events < n {
+        let i = rng.random_range(0..k);
+        let c = rng.random_range(0..100);
+        events += 1;
+        rep.evaluations += 1;
+        if objs[i].is_none() || c < 5 {
+            let o = T::fresh(c % 2 == 0);
+            let (l, e) = o.len_empty();
+            writeln!(out, "{}", json!({"op": "new", "id": i, "len": l as u64, "empty": e})).unwrap();
+            objs[i] = Some(o);
+        } else if c < 60 {
+            let o = objs[i].as_mut().unwrap();
+            o.add_random(rng);
+            let (l, e) = o.len_empty();
+            writeln!(out, "{}", json!({"op": "add", "id": i, "len": l as u64, "empty": e})).unwrap();
+        } else if c < 85 {
+            let j = rng.random_range(0..k);
+            if j == i || objs[j].is_none() {
+                events -= 1;
+                continue;
+            }
+            let src = objs[j].clone().unwrap();
+            let o = objs[i].as_mut().unwrap();
+            // merge with a reference to the live source, then look at both
+            o.merge_from(objs_ref(&src));
+            let (l, e) = o.len_empty();
+            let (sl, _) = src.len_empty();
+            if l > 1e8 {
+                // lengths double with every self-similar merge; start over long before TLC's 32-bit integers
+                objs[i] = None;
+            }
+            writeln!(out, "{}", json!({"op": "merge", "dst": i, "src": j, "len": l as u64, "srclen": sl as u64, "empty": e})).unwrap();
+        } else {
+            let j = rng.random_range(0..k);
+            if j == i || objs[j].is_none() {
+                events -= 1;
+                continue;
+            }
+            objs[i] = objs[j].clone();
+            let (l, _) = objs[i].as_ref().unwrap().len_empty();
+            writeln!(out, "{}", json!({"op": "clone", "dst": i, "src": j, "len": l as u64})).unwrap();
+        }
+    }
+}
+
+fn objs_ref<T>(t: &T) -> &T {
+    t
+}
+
+pub fn record_len(path: &str, seed: u64, n: usize, rep: &mut Report) {
+    use crate::types::*;
+    let mut rng = Xoshiro256PlusPlus::seed_from_u64(seed);
+    let mut out = std::io::BufWriter::new(std::fs::File::create(path).unwrap());
+    record_len_typed::<M<average::Mean>>(&mut out, &mut rng, n, rep);
+    record_len_typed::<M<average::Variance>>(&mut out, &mut rng, n, rep);
+    record_len_typed::<M<average::Skewness>>(&mut out, &mut rng, n, rep);
+    record_len_typed::<M<average::Kurtosis>>(&mut out, &mut rng, n, rep);
+    record_len_typed::<M<average::Moments4>>(&mut out, &mut rng, n, rep);
+    record_len_typed::<M<m6::M6>>(&mut out, &mut rng, n, rep);
+    record_len_typed::<M<m10::M10>>(&mut out, &mut rng, n, rep);
+    record_len_typed::<P<average::WeightedMeanWithError>>(&mut out, &mut rng, n, rep);
+    record_len_typed::<P<average::Covariance>>(&mut out, &mut rng, n, rep);
+    rep.sample(json!({"family": "len", "types": 9, "events_per_type": n}));
+    out.flush().unwrap();
+    rep.counters.insert("traces".into(), rep.behaviours);
+}
